@@ -158,8 +158,10 @@ func subvec(args ...MalType) (MalType, error) {
 		from = args[1].(int)
 		to = args[2].(int)
 	}
+	// the window's capacity ends with the window, so that extending the result can
+	// never write into the parent's backing array
 	return Vector{
-		Val: v.Val[from:to],
+		Val: v.Val[from:to:to],
 	}, nil
 }
 
@@ -776,10 +778,13 @@ func concat(a ...MalType) (MalType, error) {
 	if len(a) == 0 {
 		return List{}, nil
 	}
-	slc1, e := GetSlice(a[0])
+	slc0, e := GetSlice(a[0])
 	if e != nil {
 		return nil, e
 	}
+	// copy: appending to the first argument's slice would write into its spare
+	// capacity, which other values derived from it may share
+	slc1 := append(make([]MalType, 0, len(slc0)), slc0...)
 	for i := 1; i < len(a); i += 1 {
 		slc2, e := GetSlice(a[i])
 		if e != nil {
@@ -918,7 +923,9 @@ func conj(a ...MalType) (MalType, error) {
 		}
 		return List{Val: append(new_slc, seq.Val...)}, nil
 	case Vector:
-		new_slc := append(seq.Val, a[1:]...)
+		// copy before appending: see concat
+		new_slc := append(make([]MalType, 0, len(seq.Val)+len(a)-1), seq.Val...)
+		new_slc = append(new_slc, a[1:]...)
 		return Vector{Val: new_slc}, nil
 	case HashMap:
 		if len(a)%2 != 1 {
